@@ -386,5 +386,76 @@ func runC09(args []string) error {
 		}
 	}
 	in.free()
+	// ---- light closure sweep over EVERY constant (both tiers): 1024 word values per constant - every word with only a
+	// low byte, every word with only a high byte, and 512 seeded ones - on the three kernel paths; a kernel that treats
+	// particular constants specially is seen whatever the seed; nominates only.
+	{
+		lin, err := allocGuarded(2048, "end", 0)
+		if err != nil {
+			return err
+		}
+		for i := 0; i < 256; i++ {
+			lin.data[2*i], lin.data[2*i+1] = byte(i), 0
+			lin.data[512+2*i], lin.data[512+2*i+1] = 0, byte(i)
+		}
+		rng.Read(lin.data[1024:])
+		for path := 0; path < 3; path++ {
+			for _, op := range []string{"mul", "muladd"} {
+				var mism int64
+				var mu sync.Mutex
+				var wg sync.WaitGroup
+				nw := runtime.GOMAXPROCS(0)
+				for w := 0; w < nw; w++ {
+					wg.Add(1)
+					go func(w int) {
+						defer wg.Done()
+						out, err := allocGuarded(2048, "end", 0)
+						if err != nil {
+							return
+						}
+						defer out.free()
+						for cst := w; cst < 65536; cst += nw {
+							for i := range out.data {
+								out.data[i] = 0xA5
+							}
+							if fault, _ := callKernel(path, op, gf2p16.T(cst), lin.data, out.data); fault {
+								atomic.AddInt64(&mism, 1)
+								continue
+							}
+							for v := 0; v < 1024; v++ {
+								x := uint16(lin.data[2*v]) | uint16(lin.data[2*v+1])<<8
+								got := uint16(out.data[2*v]) | uint16(out.data[2*v+1])<<8
+								want := uint16(gf2p16.T(cst).Times(gf2p16.T(x)))
+								if op == "muladd" {
+									want ^= 0xA5A5
+								}
+								if got != want {
+									if atomic.AddInt64(&mism, 1) <= cap {
+										mu.Lock()
+										old := 0
+										if op == "muladd" {
+											old = 0xA5A5
+										}
+										lg.Emit(tracelog.M{"ev": "kern", "path": pathNames[path], "op": op, "c": cst, "len": 2, "inoff": 0, "outoff": 0,
+											"layout": "sweep-light", "fault": false, "faultmsg": "", "canary_ok": true, "in_unchanged": true,
+											"in": []int{int(x)}, "old": []int{old}, "out": []int{int(got)}, "rest_ok": true, "nominated": true})
+										mu.Unlock()
+									}
+								}
+							}
+						}
+					}(w)
+				}
+				wg.Wait()
+				nom := mism
+				if nom > cap {
+					nom = cap
+				}
+				lg.Emit(tracelog.M{"ev": "sweep", "path": pathNames[path], "op": op, "constants": 65536, "words": 1024,
+					"mismatches": mism, "nominated": nom, "cap": cap, "faults": 0})
+			}
+		}
+		lin.free()
+	}
 	return nil
 }
